@@ -51,8 +51,8 @@ type vAvahi struct {
 	groups        []*vGroup
 	addCh, remCh  chan avahi.Service
 	mu            sync.Mutex // go-avahi's server mutex: held while a signal is dispatched and while a browser is freed
-	callsAfterEnd int  // Setup / ServiceBrowserNew / EntryGroupNew after the application's Shutdown returned
-	ended         bool // application's Shutdown returned
+	callsAfterEnd int        // Setup / ServiceBrowserNew / EntryGroupNew after the application's Shutdown returned
+	ended         bool       // application's Shutdown returned
 }
 
 func (s *vAvahi) Setup(cb avahi.EventCB) error {
